@@ -1563,8 +1563,12 @@ impl<'a, const C: usize, const R: usize, T: 'a + Copy + std::fmt::Debug> Layout<
         use crate::action::Action::*;
         let x = coord.0 as usize;
         let y = coord.1 as usize;
-        assert!(x <= self.layers[0].len());
-        assert!(y <= self.layers[0][0].len());
+        // Chords v2 perform their actions at virtual coordinates outside the layer tables.
+        // A transparent action reaching here from such a coordinate (e.g. via `Repeat`) has
+        // nothing to resolve to.
+        if x >= self.layers[0].len() || y >= self.layers[0][0].len() {
+            return &NoOp;
+        }
         for layer in layer_stack {
             assert!(usize::from(layer) <= self.layers.len());
             let action = &self.layers[usize::from(layer)][x][y];
